@@ -4,6 +4,7 @@ import (
 	"encoding/json"
 	"flag"
 	"fmt"
+	"go/types"
 	"os"
 	"path/filepath"
 	"sort"
@@ -68,6 +69,7 @@ func cmdCheck(args []string) int {
 	if *tier != "thorough" {
 		*tier = "quick"
 	}
+	Tier = *tier
 	seed, _ := strconv.Atoi(os.Getenv("VERIF_SEED"))
 	t0 := time.Now()
 	code, ev := runCheck(*prop, *tier, seed)
@@ -107,12 +109,28 @@ func runCheck(prop, tier string, seed int) (int, *Evidence) {
 
 	var results []*FuncResult
 	usedExtern := map[string]bool{}
+	usedC := map[string]bool{}
 	warnings := map[string]bool{}
-	configs := []string{"verif"}
+	tagSet := map[string]bool{}
+	for _, k := range db.SortedKeys() {
+		s := db.Funcs[k]
+		if hasProp(s, prop) && !s.Trusted && !s.IsC && !strings.Contains(k, "#") {
+			t := "verif"
+			if s.Tags != "" {
+				t += "," + s.Tags
+			}
+			tagSet[t] = true
+		}
+	}
+	var configs []string
+	for t := range tagSet {
+		configs = append(configs, t)
+	}
+	sort.Strings(configs)
 	for _, tags := range configs {
 		P, err := Load(RepoDir, tags)
 		if err != nil {
-			return fail("loading /repo: %v", err)
+			return fail("loading /repo with tags %s: %v", tags, err)
 		}
 		if bad := CheckGlobalsImmutable(P, db); len(bad) > 0 {
 			return fail("global clauses are not sound: %s", strings.Join(bad, "; "))
@@ -122,21 +140,32 @@ func runCheck(prop, tier string, seed int) (int, *Evidence) {
 			if !hasProp(s, prop) || s.Trusted || s.IsC || strings.Contains(k, "#") {
 				continue
 			}
+			t := "verif"
+			if s.Tags != "" {
+				t += "," + s.Tags
+			}
+			if t != tags {
+				continue
+			}
 			fn := P.Funcs[k]
 			if fn == nil {
-				if _, isIface := db.Funcs[k]; isIface && strings.HasPrefix(k, "(") && !strings.HasPrefix(k, "(*") && P.lookupIface(k) {
-					continue
+				if strings.HasPrefix(k, "(") && !strings.HasPrefix(k, "(*") && P.isInterfaceMethod(k) {
+					continue // contract of an interface method: used at call sites only
 				}
-				return fail("contract for %s: no such function in /repo", k)
+				return fail("contract for %s: no such function in /repo (tags %s)", k, tags)
 			}
 			r := GenFunc(P, db, fn, s)
 			if r.Skipped != "" {
 				return fail("%s: %s", k, r.Skipped)
 			}
+			r.Tags = tags
 			results = append(results, r)
 			for _, c := range r.Callees {
-				if cs := db.Funcs[c]; cs != nil && (cs.Trusted || P.Funcs[c] == nil) {
+				if cs := db.Funcs[c]; cs != nil && (cs.Trusted || (P.Funcs[c] == nil && !cs.IsC)) {
 					usedExtern[c] = true
+				}
+				if cs := db.Funcs[c]; cs != nil && cs.IsC {
+					usedC[c] = true
 				}
 			}
 			for _, w := range r.Warnings {
@@ -147,7 +176,10 @@ func runCheck(prop, tier string, seed int) (int, *Evidence) {
 	if len(results) == 0 {
 		return fail("no function under contract for %s", prop)
 	}
-	Discharge(results, dir, timeout, 16, stats)
+	// spec-level lemmas used by the theories: proved here against the bare theory
+	results = append(results, LemmaObligations(prop)...)
+	Discharge(results, dir, timeout, 12, stats)
+	retried := Retry(results, dir, 3*timeout, stats)
 
 	known := loadKnown()
 	nObl, nOK, nCanary, nCanaryOK := 0, 0, 0, 0
@@ -157,7 +189,7 @@ func runCheck(prop, tier string, seed int) (int, *Evidence) {
 	var funcs []string
 	vacuous := []string{}
 	for _, r := range results {
-		funcs = append(funcs, fmt.Sprintf("%s (%s, mode %s, %d loops)", r.Key, r.Pos, r.Mode, r.Loops))
+		funcs = append(funcs, fmt.Sprintf("%s (%s, mode %s, %d loops, tags %s)", r.Key, r.Pos, r.Mode, r.Loops, r.Tags))
 		for _, o := range r.Obls {
 			if o.Canary {
 				nCanary++
@@ -211,6 +243,14 @@ func runCheck(prop, tier string, seed int) (int, *Evidence) {
 	for _, k := range ext {
 		assumptions = append(assumptions, "assumed contract (trusted, not verified): "+k)
 	}
+	var cs []string
+	for k := range usedC {
+		cs = append(cs, k)
+	}
+	sort.Strings(cs)
+	for _, k := range cs {
+		assumptions = append(assumptions, "contract of a C function assumed at its cgo call site (not yet proved against the C body by this run): "+k)
+	}
 	var ws []string
 	for w := range warnings {
 		ws = append(ws, w)
@@ -233,6 +273,7 @@ func runCheck(prop, tier string, seed int) (int, *Evidence) {
 	ev.Coverage["solver_queries"] = stats.Queries
 	ev.Coverage["vacuity"] = map[string]any{"canaries": nCanary, "canaries_refutable_as_required": nCanaryOK}
 	ev.Coverage["samples"] = samples
+	ev.Coverage["retried_with_longer_budget"] = retried
 	ev.Coverage["bounded"] = []string{}
 	ev.Coverage["explanation"] = propExplanation[prop]
 	ev.Violations = len(violations)
@@ -292,4 +333,27 @@ var commonAssumptions = []string{
 var propAssumptions = map[string][]string{}
 var propExplanation = map[string]string{}
 
-func (P *Program) lookupIface(key string) bool { return true }
+
+
+
+// isInterfaceMethod: key has the form (pkg.Iface).Method for an interface type of the loaded packages.
+func (P *Program) isInterfaceMethod(key string) bool {
+	i := strings.Index(key, ").")
+	if i < 0 {
+		return false
+	}
+	tn := key[1:i]
+	j := strings.LastIndex(tn, ".")
+	if j < 0 {
+		return false
+	}
+	for _, sp := range P.SSA.AllPackages() {
+		if pkgShort(sp.Pkg.Path()) == tn[:j] {
+			if obj, ok := sp.Pkg.Scope().Lookup(tn[j+1:]).(*types.TypeName); ok {
+				_, isIface := obj.Type().Underlying().(*types.Interface)
+				return isIface
+			}
+		}
+	}
+	return false
+}
